@@ -256,14 +256,18 @@ def strip_fragment(t):
     return t if i < 0 else t[:i]
 
 
-def ref_rewrite(ridx, templates, table, target, cond, scheme, authority, port, limit=100):
+def ref_rewrite(ridx, templates, table, target, cond, scheme, authority, port, limit=100, gate=None, state=None):
     """rewrite-once rules (index < ridx) are applied once, rewrite-repeat rules again and again until no
-    rule matches; more than `limit` re-dispatches is an error.  -> ('served', target, n) | ('failed', n)"""
+    rule matches; more than `limit` re-dispatches is an error.  -> ('served', target, n) | ('failed', n).
+    `gate(target)` (the -if-not-file directives): the rules are not consulted for a target whose physical
+    path is a regular file."""
     target = strip_fragment(target)
     if not target.startswith(b"/") or b"%" in target or b"/." in target or b"//" in target:
         raise Abstain      # target parsing proper belongs to C01/C02
     n, redispatch, finished = 0, 0, False
     while True:
+        if templates and gate is not None and gate(target):
+            return ("served", target, n)
         if n:
             redispatch += 1
             if redispatch > limit:
@@ -525,6 +529,24 @@ def reference(line):
         au = au.lower() if au else b"server.name"
         r = ref_rewrite(int(t[1]), tmpls, p_table(t[9]), unhx(t[3]), p_cond(t[4]), p_opt(t[5]), au, int(t[7]))
         return "served %s %d" % (hx(r[1]), r[2]) if r[0] == "served" else "failed %d" % r[1]
+    if op == "nf":
+        # url.rewrite[-repeat]-if-not-file: applies unless the physical path is a regular file (stat follows links)
+        pats, tmpls = p_rules(t[4])
+        target = strip_fragment(unhx(t[5]))
+        if not target.startswith(b"/") or b"%" in target or b"/." in target or b"//" in target:
+            raise Abstain
+        if t[2] == "1" or not tmpls or t[1] in ("reg", "lnreg"):
+            return "go"
+        au = p_opt(t[8])
+        au = au.lower() if au else b"server.name"
+        q = target.find(b"?")
+        url = Url(p_opt(t[7]), au, int(t[9]), target, None if q < 0 else target[q + 1:])
+        r = ref_process(tmpls, p_trace(t[10]), target, p_cond(t[6]), url)
+        if r[0] == "go":
+            return "go"
+        if r[0] == "err" or not r[2].startswith(b"/"):
+            return "failed"
+        return "comeback " + hx(r[2])
     if op == "alias":
         al = [] if t[2] == "." else [tuple(unhx(x) for x in kv.split(":")) for kv in t[2].split(";")]
         return ref_alias(t[1] == "1", al, unhx(t[3]), unhx(t[4]))
@@ -571,6 +593,7 @@ def oracle(line, out):
                 "proc": "rule selection / substitution differs from 'first matching rule is applied'",
                 "redir": "Location / status differs from the documented redirect",
                 "rw": "rewritten request-target differs from the documented once/repeat semantics",
+                "nf": "rewrite-if-not-file does not apply exactly when the physical path is not a regular file",
                 "alias": "alias does not replace exactly the matched prefix",
                 "svhost": "simple-vhost document root is not server-root + host + document-root",
                 "evhost": "evhost document root differs from the documented pattern expansion"}[op]
@@ -584,8 +607,8 @@ def line_template(line):
     try:
         if t[0] == "subst":
             return unhx(t[1])
-        if t[0] in ("proc", "rw", "redir"):
-            return b"|".join(p_rules(t[{"proc": 1, "rw": 2, "redir": 4}[t[0]]])[1])
+        if t[0] in ("proc", "rw", "redir", "nf"):
+            return b"|".join(p_rules(t[{"proc": 1, "rw": 2, "redir": 4, "nf": 4}[t[0]]])[1])
     except (ValueError, IndexError):
         pass
     return b""
@@ -616,6 +639,8 @@ def classify(line, out):
     if op == "rw":
         n = int(o[-1]) if o[-1].isdigit() else -1
         return "rw:%s:%s:opts%s:ridx%s" % (o[0], "n%d" % n if n < 3 else ("n3+" if n < 100 else "nmax"), t[8], t[1])
+    if op == "nf":
+        return "nf:%s:h%s:%s" % (t[1], t[2], o[0])
     if op == "alias":
         return "alias:%s:%s" % (t[1], "403" if out == "403" else ("same" if out == t[4] + " " + t[3] else "remap"))
     if op == "svhost":
@@ -977,6 +1002,30 @@ def gen_rw(ctx):
     return lines
 
 
+FS_KINDS = ["reg", "dir", "dirslash", "missing", "missingslash", "lnreg", "lndir", "lndirslash", "lndangling", "below",
+            "regslash", "fifo"]
+
+
+def gen_nf(ctx):
+    """mod_rewrite_physical: every filesystem kind x (handler set or not) x rule lists"""
+    rng, lines = ctx.rng, []
+    front = [(rb"^/app(?:/([^?]*))?(?:\?.*)?$", b"/front.txt?route=$1", b"/app/x")]
+    for kind in FS_KINDS:
+        for handler in (0, 1):
+            for ridx in (0, 1):
+                for t in (b"/app", b"/app/", b"/app/x?y=1", b"/other"):
+                    lines.append("nf %s %d %d %s %s ~ %s %s 80 ?" % (kind, handler, ridx, rules_tok(front), hx(t),
+                                                                    hx(b"http"), hx(b"Www.Example.com")))
+            lines.append("nf %s %d 0 . %s ~ %s %s 80 ?" % (kind, handler, hx(b"/app"), hx(b"http"), hx(b"h")))
+    for _ in range(n_cases(ctx, 12000)):
+        rules = rand_rules(rng, 3)
+        t = rand_target(rng, rules)
+        lines.append("nf %s %d %d %s %s %s %s %s %d ?" % (
+            rng.choice(FS_KINDS), rng.random() < 0.1, rng.randint(0, len(rules)), rules_tok(rules), hx(t), rand_cond(rng),
+            hx(rng.choice([b"http", b"https"])), rng.choice([hx(h) for h in HOSTS] + ["~"]), rng.choice([80, 443])))
+    return lines
+
+
 ALIAS_KEYS = [b"/cgi-bin/", b"/doc", b"/doc/", b"/icons/", b"/i", b"/Img", b"/a/b", b"/", b"/x.y", b""]
 ALIAS_VALS = [b"/usr/lib/cgi-bin/", b"/usr/share/doc", b"/usr/share/doc/", b"/srv/i/", b"/v", b"/", b"", b"/var/www/d"]
 URI_TAILS = [b"", b"x", b"/x", b"/../x", b"../x", b"./x", b".", b"..", b".x", b"..x", b"/", b"//", b"x/y.html", b".../x",
@@ -1218,7 +1267,12 @@ def e2e_judge(ctx, name, conf, host, target, want, got, relabel=None):
     ok = e2e_same(want, got)
     if got is None:
         got = (0, None, b"")
-    pre = target.split(b"/")[1][:8].decode("latin-1") if name == "rules" else host.decode("latin-1")[:24]
+    if name == "rules":
+        pre = target.split(b"/")[1][:8].decode("latin-1")
+    elif name == "fskinds":
+        pre = host.decode("latin-1") + ":" + target.split(b"?")[0].decode("latin-1")
+    else:
+        pre = host.decode("latin-1")[:24]
     ctx.keys["e2e:%s:%s:%s" % (name, pre, want[0] if want[0] != "status" else want[1])] += 1
     if not ok:
         what = {"redirect": "Location header / status of the redirect", "file": "resource served",
@@ -1262,6 +1316,103 @@ def e2e_compare(ctx, name, conf, port, reqs, expect):
         for h, t, want in batch:
             r = e2e_fetch(port, [(h, t)])
             e2e_judge(ctx, name, conf, h, t, want, r[0] if r else None, lambda h=h, t=t: expect(h, t))
+
+
+# every rewrite directive kind (and redirect) x every filesystem kind the target can map to
+FSK_R = (rb"^/t(?:/([^?]*))?(?:\?.*)?$", b"/front.txt?route=$1")
+FSK_A = (rb"^/chain/a/(.*)$", b"/chain/b/$1")
+FSK_B = (rb"^/chain/b/(.*)$", b"/t/$1")
+FSK_B2 = (rb"^/chain/b/(.*)$", b"/chain/c/$1")
+FSK_C = (rb"^/chain/c/(.*)$", b"/t/$1")
+FSK_LOOP = (rb"^/loopnf/(.*)$", b"/loopnf/x$1")
+# host -> (rewrite-once, rewrite-repeat, rewrite-if-not-file, rewrite-repeat-if-not-file, redirect)
+FSK_HOSTS = {
+    b"once.test": ([FSK_A, FSK_B, FSK_R], [], [], [], []),
+    b"repeat.test": ([], [FSK_A, FSK_B, FSK_R], [], [], []),
+    b"nf.test": ([], [], [FSK_A, FSK_B, FSK_R, FSK_LOOP], [], []),
+    b"rnf.test": ([], [], [], [FSK_A, FSK_B, FSK_R, FSK_LOOP], []),
+    b"mix.test": ([], [], [FSK_A], [FSK_B2, FSK_C, FSK_R], []),
+    b"redir.test": ([], [], [], [], [(rb"^/t(?:/([^?]*))?", b"/moved/$1${qsa}")]),
+    b"plain.test": ([], [], [], [], []),
+}
+FSK_FILES = ["front.txt", "t/reg.txt", "t/dir/index.html", "t/dir/inner.txt", "t/sub/reg2.txt"]
+FSK_ENTRIES = [b"reg.txt", b"dir", b"dir/", b"empty", b"empty/", b"none", b"none/", b"lnreg", b"lndir", b"lndir/",
+               b"lndangling", b"reg.txt/extra", b"", b"sub/reg2.txt", b"sub", b"sub/", b"dir/inner.txt", b"dir/none"]
+FSK_PREFIXES = [b"/t/", b"/chain/a/", b"/chain/b/", b"/chain/c/"]
+FSK_SPECIAL = [b"/t", b"/front.txt", b"/loopnf/a", b"/t?x=1", b"/none.txt"]
+
+
+def e2e_conf_d():
+    names = ("url.rewrite-once", "url.rewrite-repeat", "url.rewrite-if-not-file", "url.rewrite-repeat-if-not-file",
+             "url.redirect")
+    out = 'index-file.names = ( "index.html" )\n'
+    for host, lists in FSK_HOSTS.items():
+        body = "".join("  %s = ( %s )\n" % (n, conf_list(l)) for n, l in zip(names, lists) if l)
+        if body:
+            out += '$HTTP["host"] == "%s" {\n%s}\n' % (host.decode(), body)
+    return out
+
+
+def e2e_expect_d(srv, host, target):
+    """documented semantics: rewrite-once/-repeat and redirect apply whatever the target maps to; the
+    -if-not-file lists apply unless the physical path (document root + url-path) is a regular file"""
+    import stat as _stat
+    authority = host.lower()
+    if authority not in FSK_HOSTS:
+        raise Abstain
+    once, rep, nf, rnf, redir = FSK_HOSTS[authority]
+    docroot = srv.docroot.encode()
+
+    def phys(t):
+        path = t.split(b"?")[0]
+        if b"%" in path:
+            raise Abstain
+        return docroot + path
+
+    def is_regular(t):
+        try:
+            return _stat.S_ISREG(os.stat(phys(t)).st_mode)
+        except OSError:
+            return False
+
+    n = 0
+    for ridx, rules, gate in ((len(once), once + rep, None), (len(nf), nf + rnf, is_regular)):
+        if not rules:
+            continue
+        r = ref_rewrite(ridx, [t for _, t in rules], ReTable([p for p, _ in rules]), target, None, b"http",
+                        authority, srv.port, gate=gate)
+        if r[0] == "failed":
+            return ("closed",)
+        target, n = r[1], n + r[2]
+    if redir:
+        q = target.find(b"?")
+        url = Url(b"http", authority, srv.port, target, None if q < 0 else target[q + 1:])
+        rr = ref_process([t for _, t in redir], ReTable([p for p, _ in redir])[target], target, None, url)
+        if rr[0] == "fin":
+            return ("redirect", 301, rr[2])
+    # the resource finally served: only judged for regular files and missing paths (directory handling,
+    # path-info are other properties' subject)
+    try:
+        st = os.stat(phys(target))
+    except FileNotFoundError:
+        return ("status", 404)
+    except OSError:
+        raise Abstain
+    if not _stat.S_ISREG(st.st_mode):
+        raise Abstain
+    with open(phys(target), "rb") as f:
+        return ("file", f.read())
+
+
+def e2e_requests_d(rng, n):
+    targets = [p + e for p in FSK_PREFIXES for e in FSK_ENTRIES] + FSK_SPECIAL
+    out = [(h, t) for h in FSK_HOSTS for t in targets]            # the full product, every run
+    for _ in range(n):
+        t = rng.choice(targets)
+        if b"?" not in t and rng.random() < 0.6:
+            t += b"?" + rng.choice([b"", b"a=1", b"k=v&x=y"])
+        out.append((rng.choice(list(FSK_HOSTS)), t))
+    return out
 
 
 def e2e_mkfiles(base, rels):
@@ -1333,8 +1484,18 @@ def e2e_streams(bd):
         p = re.sub(rb"/+", b"/", root) + b"index.txt"
         return ("file", srv.files[p]) if p in srv.files else ("status", 404)
 
+    conf_d = e2e_conf_d()
+
+    def mk_d():
+        srv = e2e.Server(bd, conf_d, modules=("mod_rewrite", "mod_redirect"))
+        srv.files = e2e_mkfiles(srv.docroot, FSK_FILES)
+        os.makedirs(os.path.join(srv.docroot, "t", "empty"), exist_ok=True)
+        for name, dest in (("lnreg", "reg.txt"), ("lndir", "dir"), ("lndangling", "nowhere")):
+            os.symlink(dest, os.path.join(srv.docroot, "t", name))
+        return srv
+
     return {"rules": (mk_a, conf_a, expect_a), "simple-vhost": (mk_b, E2E_CONF_B, expect_b),
-            "evhost": (mk_c, E2E_CONF_C, expect_c)}
+            "evhost": (mk_c, E2E_CONF_C, expect_c), "fskinds": (mk_d, conf_d, e2e_expect_d)}
 
 
 def e2e_drive(ctx, name, mk, conf, reqs, expect):
@@ -1386,14 +1547,15 @@ def run_e2e(ctx):
                             b"example", b"default.example:80", b"B.A.EXAMPLE"]
     hosts_c = [b"sub1.domain.tld", b"x.sub1.domain.tld", b"domain.tld", b"www.other.org:81", b"Sub1.Domain.TLD", b"tld",
                b"a.b.sub1.domain.tld:8080", b"nosuch.example", b"www.other.org", b"sub2.domain.tld"]
-    reqs = {"rules": e2e_requests(rng, nreq),
+    reqs = {"rules": e2e_requests(rng, nreq), "fskinds": e2e_requests_d(rng, nreq // 3),
             "simple-vhost": [(rng.choice(hosts_b), b"/index.txt") for _ in range(nv)],
             "evhost": [(rng.choice(hosts_c), b"/index.txt") for _ in range(nv)]}
-    for name in ("rules", "simple-vhost", "evhost"):
+    for name in ("rules", "fskinds", "simple-vhost", "evhost"):
         mk, conf, expect = st[name]
         e2e_drive(ctx, name, mk, conf, reqs[name], expect)
-    ctx.streams.append({"name": "end-to-end (real lighttpd: rewrite/redirect/alias, simple-vhost, evhost)",
-                        "cases": nreq + 2 * nv, "wall_s": round(time.time() - t0, 2)})
+    ctx.streams.append({"name": "end-to-end (real lighttpd: rewrite/redirect/alias, every rewrite directive x "
+                                "filesystem kind, simple-vhost, evhost)",
+                        "cases": sum(len(v) for v in reqs.values()), "wall_s": round(time.time() - t0, 2)})
 
 
 def run(ctx):
@@ -1407,6 +1569,8 @@ def run(ctx):
                      fill_traces(ctx, exe, gen_proc(ctx)), oracle, classify)
     ctx.differential("rewrite once/repeat loop (mod_rewrite + re-dispatch)", [exe], "kv",
                      fill_traces(ctx, exe, gen_rw(ctx)), oracle, classify)
+    ctx.differential("rewrite-if-not-file gate (mod_rewrite_physical x filesystem kinds)", [exe], "kv",
+                     fill_traces(ctx, exe, gen_nf(ctx)), oracle, classify)
     ctx.differential("alias.url prefix replacement", [exe], "kv", gen_alias(ctx), oracle, classify)
     ctx.differential("simple-vhost / evhost document roots", [exe], "kv", gen_vhost(ctx), oracle, classify)
     run_e2e(ctx)
